@@ -39,7 +39,7 @@ def expectedSites : List (String × String × String × Bool × String) := [
   ("src/eth_rpc/api.go", "StateOverride.Apply", "SetBalance", false, "not a transaction path (eth_call state override on a throw-away state)"),
   ("src/executor/contract_executor.go", "contractExecutor.Execute", "AddBalance", false, "contractExecute (chargeGas step)"),
   ("src/executor/contract_executor.go", "contractExecutor.Execute", "SubBalance", false, "contractExecute (chargeGas step)"),
-  ("src/executor/miner_node_executor.go", "minerNodeExecutor.Execute", "SubBalance", false, "NOT MODELLED: OperatorNode tx debits 10 RPG without crediting anyone (see design/C06.md)"),
+  ("src/executor/miner_node_executor.go", "minerNodeExecutor.Execute", "SubBalance", false, "nodeTx (debits 10 RPG and credits nobody: known finding burn-operator-node-fee)"),
   ("src/service/game.go", "transferBalance", "AddBalance", false, "transferBalance"),
   ("src/service/game.go", "transferBalance", "SubBalance", true, "transferBalance"),
   ("src/service/miner_manager.go", "MinerManager.AddMiner", "SubBalance", false, "lockStake"),
